@@ -1230,7 +1230,7 @@ func judge(r *vh.Run, sc *scen, all []obs, sessOf map[string]string, allIn map[s
 		}
 		if !sc.extended && !sampled[o.Stage] && K == 2 && sc.F == 2 && o.Req.Round == 1 {
 			sampled[o.Stage] = true
-			if (kind == kit.SLJSON && (o.Stage == "handler" || o.Stage == "filter|tools/list")) || (kind == kit.SJSON && o.Stage == "notification-handler") {
+			if (kind == kit.SLJSON && o.Stage == "handler") || (kind == kit.SJSON && o.Stage == "notification-handler") {
 				r.Sample(map[string]interface{}{"kind": kind, "session_observation": o})
 			}
 		}
@@ -1408,6 +1408,7 @@ func main() {
 		}
 		r.SetAdd("middleware_stacks", stackName(stack))
 	}
+	verdictSweep(r)
 	sharedSweep(r)
 	// non-vacuity (Require, not Fatal: violations found by the value oracle are reported first)
 	r.Require(r.Counter("mwsweep_detached_session_objects_verified") > 0 && r.Counter("detached_handler_fallback_session_is_requesters") > 0 && r.Counter("mwsweep_sequential_observations_with_session") > 0,
@@ -1416,6 +1417,7 @@ func main() {
 		"no session data was read back / no live session objects were compared (stateless servers included): the session part of the property was not exercised")
 	rvVerdict(r)
 	sharedVerdict(r)
-	r.Finish("K = 2 / 8 / 16-32 raw clients, each with a unique header token, against Streamable (stateful / stateless, JSON / SSE answers; sessions disabled with K = 8) and legacy SSE servers configured with two HTTP context functions (the second derives its value from the first's; a second sweep registers 1, 3-7, 9 and 12 of them, each appending to a chain value, and lets the K requests of a round meet inside the first context function so that the context-function stages overlap), a tool / prompt / resource list filter keyed on the token, and a middleware; per round every client issues one gated tool call (all K handlers are inside at the same time, then released together) and, next to it, three list requests, a prompts/get, a resources/read and a notification with a registered server-side handler; in every second round these six stages are lock-step too (the K requests of a stage meet at a gate inside the filter / handler while the K calls are held). Each echo (context values, session via both accessors, server handle, notification sender by effect) and each list must be the requester's own; every stage records the session object it is handed (pointer, id, both accessors) and uses it as state: the middleware (the notification handler on its path) reads what is on the session, notes the derived token and the request id on it, every stage notes the request id under its own key, waits, and reads all of it back - a value noted for another client is a violation in every configuration, a note of the same request that is gone is one, and requests of different clients inside at the same time must hold different session objects. Observations are joined to requests through the request id. A last sweep varies what the middlewares do with the context they pass inward - stacks of 0 to 3 middlewares (a fixed list, plus stacks drawn from the seed; thorough: all stacks of length <= 2) of the styles pass-through, derive (WithValue + WithTimeout), detach (a fresh context.Background(), optionally with a timeout, carrying only the copied context-function values, none of the library's session / server / sender keys) and run-next-in-a-goroutine, every middleware treating every request (handshake included) in its style - on Streamable stateful / stateless (JSON / SSE) and legacy SSE, with 3 clients overlapping as before and strictly sequentially (client 0 connects and is served alone, one request at a time, then client 1, ...; repeated). Every middleware of the stack observes like the others; the session any stage obtains through either accessor must be the requester's (id) and, within one request, the very object the library handed the outermost middleware; the context-function values must be the request's own. Below a detaching middleware only the tool handler's ClientSessionFromContext (the documented fallback) is required to be there; a missing GetSessionFromContext / server handle / notification sender / session in filters, prompt and resource handlers and inner middlewares is counted (detached_*), not judged. Distinct = (server kind, stage, K) resp. (server kind, middleware stack, overlapping | sequential, stage). Every rendezvous (first context function, held tool calls, lock-step stages) is a watchdog-bounded one: when not all participants are inside within 5 s they are released anyway, the round is booked as overlap-not-achieved (rendezvous_unmet, an INCONCLUSIVE line; never a violation and never held) and its answers are still judged by the value oracle; two consecutive unmet rendezvous of an aspect switch that barrier off for the rest of the scenario, three such scenarios for the rest of the run (rendezvous_skipped), and a run with more than a tenth of its rendezvous unmet or skipped ends without a verdict. Last class, shared computation between overlapping calls: 2 / 6 / 12-24 clients send tools/list, prompts/list, resources/list, resources/templates/list, tools/call, prompts/get and resources/read at the same time - every (method, slowness, shape) combination in seed order, shapes: all clients the same method | a mix of methods | bursts of three per client; the requests of different clients are identical down to the JSON-RPC id and the arguments, only the headers differ - against filters / handlers that are slow without containing a barrier (yield loops of 200-20000 Gosched, sleeps of 0.2-2 ms, or a gate the harness opens once all requests of the round went through the first context function, optionally with the first client sent ahead and held inside its filter before the others are sent); each answer must be the caller's own (list = what the filter admits for the caller's token, echo = the caller's context-function values and session); filters / handlers count the other requests inside the same user code when they enter (shared_overlapping_pairs|<method>), an answer becomes a distinct case (server kind, method, slowness, shape) only in a round whose requests really overlapped inside that user code, and the run ends without a verdict when the list filters did not overlap in at least half of their same-method rounds.",
-		[]string{"a library that serialises or coalesces overlapping requests does not violate the statement by that alone: unmet rendezvous / missing overlap make the run inconclusive (INCONCLUSIVE lines, exit 3 when frequent), only an answer carrying another caller's values is a violation", "presence is required only where documented: context-function values everywhere (not in notification handlers), the session in handlers and middlewares of servers that issue session ids, server handle and sender in tool handlers", "stateless sessions: the statement promises isolation between clients; that the library uses one temporary session per request is not part of it, so a value carried over from another request of the SAME client is only counted (stateless_carry_over_same_client), not a violation", "session objects are compared by pointer only between requests that were inside at the same time, and between the stages of one request while its outermost middleware still holds the session (address reuse after a request has ended proves nothing)", "a middleware that replaces the context with one kept from ANOTHER request is application misbehaviour outside the statement: not exercised", "what a detached context (fresh context.Background() + copied application values) still offers besides the tool handler's session fallback is left open by the statement: counted only"})
+	verdictVerdict(r)
+	r.Finish("K = 2 / 8 / 16-32 raw clients, each with a unique header token, against Streamable (stateful / stateless, JSON / SSE answers; sessions disabled with K = 8) and legacy SSE servers configured with two HTTP context functions (the second derives its value from the first's; a second sweep registers 1, 3-7, 9 and 12 of them, each appending to a chain value, and lets the K requests of a round meet inside the first context function so that the context-function stages overlap), a tool / prompt / resource list filter keyed on the token, and a middleware; per round every client issues one gated tool call (all K handlers are inside at the same time, then released together) and, next to it, three list requests, a prompts/get, a resources/read and a notification with a registered server-side handler; in every second round these six stages are lock-step too (the K requests of a stage meet at a gate inside the filter / handler while the K calls are held). Each echo (context values, session via both accessors, server handle, notification sender by effect) and each list must be the requester's own; every stage records the session object it is handed (pointer, id, both accessors) and uses it as state: the middleware (the notification handler on its path) reads what is on the session, notes the derived token and the request id on it, every stage notes the request id under its own key, waits, and reads all of it back - a value noted for another client is a violation in every configuration, a note of the same request that is gone is one, and requests of different clients inside at the same time must hold different session objects. Observations are joined to requests through the request id. A last sweep varies what the middlewares do with the context they pass inward - stacks of 0 to 3 middlewares (a fixed list, plus stacks drawn from the seed; thorough: all stacks of length <= 2) of the styles pass-through, derive (WithValue + WithTimeout), detach (a fresh context.Background(), optionally with a timeout, carrying only the copied context-function values, none of the library's session / server / sender keys) and run-next-in-a-goroutine, every middleware treating every request (handshake included) in its style - on Streamable stateful / stateless (JSON / SSE) and legacy SSE, with 3 clients overlapping as before and strictly sequentially (client 0 connects and is served alone, one request at a time, then client 1, ...; repeated). Every middleware of the stack observes like the others; the session any stage obtains through either accessor must be the requester's (id) and, within one request, the very object the library handed the outermost middleware; the context-function values must be the request's own. Below a detaching middleware only the tool handler's ClientSessionFromContext (the documented fallback) is required to be there; a missing GetSessionFromContext / server handle / notification sender / session in filters, prompt and resource handlers and inner middlewares is counted (detached_*), not judged. Distinct = (server kind, stage, K) resp. (server kind, middleware stack, overlapping | sequential, stage). Every rendezvous (first context function, held tool calls, lock-step stages) is a watchdog-bounded one: when not all participants are inside within 5 s they are released anyway, the round is booked as overlap-not-achieved (rendezvous_unmet, an INCONCLUSIVE line; never a violation and never held) and its answers are still judged by the value oracle; two consecutive unmet rendezvous of an aspect switch that barrier off for the rest of the scenario, three such scenarios for the rest of the run (rendezvous_skipped), and a run with more than a tenth of its rendezvous unmet or skipped ends without a verdict. Last class, shared computation between overlapping calls: 2 / 6 / 12-24 clients send tools/list, prompts/list, resources/list, resources/templates/list, tools/call, prompts/get and resources/read at the same time - every (method, slowness, shape) combination in seed order, shapes: all clients the same method | a mix of methods | bursts of three per client; the requests of different clients are identical down to the JSON-RPC id and the arguments, only the headers differ - against filters / handlers that are slow without containing a barrier (yield loops of 200-20000 Gosched, sleeps of 0.2-2 ms, or a gate the harness opens once all requests of the round went through the first context function, optionally with the first client sent ahead and held inside its filter before the others are sent); each answer must be the caller's own (list = what the filter admits for the caller's token, echo = the caller's context-function values and session); filters / handlers count the other requests inside the same user code when they enter (shared_overlapping_pairs|<method>), an answer becomes a distinct case (server kind, method, slowness, shape) only in a round whose requests really overlapped inside that user code, and the run ends without a verdict when the list filters did not overlap in at least half of their same-method rounds. Class verdict shapes (the filter's verdict is final whatever its shape): on every server kind (Streamable stateful / stateless x JSON / SSE, sessions disabled, legacy SSE) 8 (thorough: 2 / 8 / 22) callers with distinct tokens list tools, prompts and resources at the same time against slow filters (yield loops, overlap counted); a third context function takes the verdict shape of the request from a header, so every request of every caller has its own shape and the callers of a round all have different ones: admitted set everything | a strict subset containing an entry only this caller may see | exactly that one entry | NOTHING, the empty verdict reported as nil slice (var out + append idiom), make(.,0), make(.,0,n), a literal, arg[:0], arg[n:n], a non-empty verdict as a fresh slice, filtered in place (arg[:0] + append), as a suffix sub-slice of the argument, in descending name order, with every entry twice, as the argument itself; the answer must be a list whose set of names is exactly the admitted set of the caller's own token and shape (an empty verdict gives an empty list, never the unfiltered one); the filter also checks that the three context-function values it sees belong to one request. Distinct = (server kind, list kind, admitted set / representation); all 3 x 22 x 6 cells must have judged callers (verdict_cells_observed, verdict_cell_min_callers), else no verdict.",
+		[]string{"a library that serialises or coalesces overlapping requests does not violate the statement by that alone: unmet rendezvous / missing overlap make the run inconclusive (INCONCLUSIVE lines, exit 3 when frequent), only an answer carrying another caller's values is a violation", "presence is required only where documented: context-function values everywhere (not in notification handlers), the session in handlers and middlewares of servers that issue session ids, server handle and sender in tool handlers", "stateless sessions: the statement promises isolation between clients; that the library uses one temporary session per request is not part of it, so a value carried over from another request of the SAME client is only counted (stateless_carry_over_same_client), not a violation", "session objects are compared by pointer only between requests that were inside at the same time, and between the stages of one request while its outermost middleware still holds the session (address reuse after a request has ended proves nothing)", "a middleware that replaces the context with one kept from ANOTHER request is application misbehaviour outside the statement: not exercised", "what a detached context (fresh context.Background() + copied application values) still offers besides the tool handler's session fallback is left open by the statement: counted only", "verdict shapes: order and multiplicity of a list answer relative to the filter's verdict are left open by the statement (answers are compared as sets; verdict_answers_in_filter_order_and_multiplicity is counted only), and so is a verdict naming an unregistered or nil entry (not exercised); an error answer to a list request is inconclusive, not a violation"})
 }
